@@ -436,6 +436,34 @@ def etcd_created_case(seed, i, engine):
     return c16.EtcdCase("etcd", lines, {"kind": "etcd-created", "engine": engine, "n": n})
 
 
+def big_catchup_case(n):
+    """a watch whose catch-up from the event cache is larger than resultChanLength x eventBatchSize events (the code
+    re-batches such a backlog to fit its result channel): it must be served (or refused), never hang, and deliver every
+    event once, in order. Implementation only: the executable model needs minutes for tens of thousands of writes."""
+    lines = ["cfg engine=memkv prefix=2f72 cache=40000", "bulk %d %s 76" % (n, hx(b"/r/b")), "rev",
+             "watch w1 %s %d" % (hx(b"/r/"), hist.INIT + 1), "drain w1", "create %s 77" % hx(b"/r/zlive"), "rev", "drain w1"]
+    return core.ImplOnlyCase("backend", lines, {"kind": "bigcatchup", "n": n}, timeout=60)
+
+
+def oracle_bigcatchup(case):
+    n = case.meta["n"]
+    out = case.impl or []
+    if len(out) < len(case.lines) or any(x == "TIMEOUT" or x.startswith("CRASHED") for x in out):
+        return ("a watch from inside the event cache with a backlog of %d events was neither served nor refused: the request "
+                "hangs (transcript: %s)" % (n, [x[:60] for x in out][-3:]), "watch-catchup-hangs")
+    if out[3].split()[2:3] == ["refused"]:
+        return None
+    evs = out[4].split()[2]
+    revs = [int(e.split(":")[1]) for e in evs.split(",")] if evs != "-" else []
+    if revs != list(range(hist.INIT + 1, hist.INIT + 1 + n)):
+        return ("the catch-up of a watch with a backlog of %d events delivered %d events, not every event once in order "
+                "(first %s, last %s)" % (n, len(revs), revs[:3], revs[-3:]), "watch-catchup-wrong")
+    live = out[7].split()[2]
+    if not live.startswith("C:%d:" % (hist.INIT + n + 1)):
+        return ("after a large catch-up the live event was not delivered: %s" % out[7][:120], "watch-catchup-wrong")
+    return None
+
+
 def oracle_created(case):
     n = case.meta["n"]
     for i, (line, out) in enumerate(zip(case.lines, case.impl)):
@@ -474,6 +502,9 @@ def build_cases(tier, seed):
         cases.append(gen_prefix(seed, j, CACHES[j % len(CACHES)]))
     for j in range(3 if tier == "quick" else 60):
         cases.append(etcd_created_case(seed, j, ["memkv", "badger", "tikv"][j % 3]))
+    cases.append(big_catchup_case(30001))
+    if tier != "quick":
+        cases += [big_catchup_case(n) for n in (30000, 30099, 35017)]
     return cases
 
 
@@ -506,7 +537,8 @@ def check(rep, tier, seed):
                 outcomes["streams_closed"] += o[3] == "closed=1"
             elif len(o) == 3 and o[0] == "await" and o[2] == "1":
                 outcomes["parked_registrations" if o[1].startswith("watch.") else "parked_sequencer"] += 1
-        hit = oracle_ring(c) if k == "ring" else oracle_created(c) if k == "etcd-created" else oracle_watch(c)
+        hit = (oracle_ring(c) if k == "ring" else oracle_created(c) if k == "etcd-created" else
+               oracle_bigcatchup(c) if k == "bigcatchup" else oracle_watch(c))
         if hit:
             if core.handle_oracle_hit(rep, "C05", hit[1], c, hit[0], hit[1]):
                 return True
